@@ -12,7 +12,9 @@ A *case* is a small program: a list of functions, fns[0] is the root.  Function 
   ["ret"]                      return
   ["set"|"add", up, var, arg]  var = arg / var += arg; up=1: the variable of the function that created this closure
   ["show", up, var]            println("V", code(var), var)
-  ["if", cond, [then], [else]] if <cond> { } else { }      (cond: 0/1, read from a package-level variable)
+  ["if", cond, [then], [else]] if <cond> { } else { }      (cond: 0/1, read from a package-level variable; inside loops also
+                               ["ieq", k] / ["oeq", k]: innermost / next enclosing loop variable == k)
+  ["break", d] ["continue", d] d = 0: innermost loop, d = 1: labelled, the next enclosing loop
   ["for", n, [body]]           for i := 0; i < n; i++ { }  (n read through a package-level variable)
   ["rfor", n, [body]]          for v := range seq(n) { }   range-over-func: the body becomes a synthetic yield closure; its
                                defers go to the enclosing function's defer stack (Builder.DeferTo)
@@ -26,7 +28,33 @@ process per case).  The same source is compiled by llgo (-O0, -O2) and by the re
 `flatten` produces the executed path of every function (what the Lean interpreters run)."""
 import json
 
-TERMINATORS = ("panic", "ret")
+TERMINATORS = ("panic", "ret", "break", "continue")
+
+
+def cond_go(c, loopvars):
+    if c in (0, 1):
+        return "%s == 1" % ("one" if c else "zero")
+    v = loopvars[-1] if c[0] == "ieq" else loopvars[-2]
+    return "%s == zero+%d" % (v, c[1])
+
+
+def cond_val(c, loopvals):
+    if c in (0, 1):
+        return bool(c)
+    v = loopvals[-1] if c[0] == "ieq" else loopvals[-2]
+    return v == c[1]
+
+
+def uses_label(body, depth=0):
+    """does the body of a loop contain a break/continue that targets this loop through a label (d == nesting depth)"""
+    for s in body:
+        if s[0] in ("break", "continue") and s[1] == depth and depth > 0:
+            return True
+        if s[0] == "if" and (uses_label(s[2], depth) or uses_label(s[3], depth)):
+            return True
+        if s[0] == "for" and uses_label(s[2], depth + 1):
+            return True
+    return False
 
 
 # ----------------------------------------------------------------------------------------------- rendering
@@ -73,6 +101,11 @@ def render_case(R, ci, case):
         n = fns[f]["nparams"]
         return ", ".join("p%d int" % i for i in range(n))
 
+    labels = []
+
+    def fname(c):
+        return "F%d%s" % (gids[c], "[int]" if fns[c].get("generic") else "")
+
     def body(f, stmts, ind, loopvars, path, parent):
         g = gids[f]
         pg = gids[parent] if parent is not None else g
@@ -93,11 +126,11 @@ def render_case(R, ci, case):
                     R.emit("%s\treturn" % t)
                     R.emit("%s}(%s)" % (t, args))
                 else:
-                    R.emit("%sdefer F%d(%s)" % (t, gids[callee], args))
+                    R.emit("%sdefer %s(%s)" % (t, fname(callee), args))
             elif k == "call":
                 args = ", ".join(arg_go(a, g, loopvars) for a in s[2])
                 R.emit("%s{" % t)
-                R.emit("%s\tt := F%d(%s)" % (t, gids[s[1]], args))
+                R.emit("%s\tt := %s(%s)" % (t, fname(s[1]), args))
                 R.emit('%s\tprintln("T", %d, t)' % (t, s[1]))
                 R.emit("%s}" % t)
             elif k == "mark":
@@ -122,7 +155,7 @@ def render_case(R, ci, case):
                 tg = pg if s[1] else g
                 R.emit('%sprintln("V", %d, %s%d)' % (t, 0 if s[2] == "x" else 1, s[2], tg))
             elif k == "if":
-                R.emit("%sif %s == 1 {" % (t, "one" if s[1] else "zero"))
+                R.emit("%sif %s {" % (t, cond_go(s[1], loopvars)))
                 body(f, s[2], ind + 1, loopvars, p + (0,), parent)
                 if s[3]:
                     R.emit("%s} else {" % t)
@@ -131,9 +164,16 @@ def render_case(R, ci, case):
             elif k == "for":
                 loopctr[0] += 1
                 lv = "i%d_%d" % (g, loopctr[0])
+                lab = "L%d_%d" % (g, loopctr[0])
+                if uses_label(s[2]):
+                    R.emit("%s%s:" % (t[:-1], lab))
+                labels.append(lab)
                 R.emit("%sfor %s := 0; %s < zero+%d; %s++ {" % (t, lv, lv, s[1], lv))
                 body(f, s[2], ind + 1, loopvars + [lv], p + (0,), parent)
+                labels.pop()
                 R.emit("%s}" % t)
+            elif k in ("break", "continue"):
+                R.emit("%s%s%s" % (t, k, "" if s[1] == 0 else " " + labels[-1 - s[1]]))
             elif k == "rfor":
                 loopctr[0] += 1
                 lv = "v%d_%d" % (g, loopctr[0])
@@ -156,7 +196,7 @@ def render_case(R, ci, case):
         if fn["kind"] != "plain":
             continue
         case["_fline"][f] = R.line_no()
-        R.emit("func F%d(%s) (r%d int) {" % (gids[f], params(f), gids[f]))
+        R.emit("func F%d%s(%s) (r%d int) {" % (gids[f], "[T any]" if fn.get("generic") else "", params(f), gids[f]))
         prologue(f, 1)
         body(f, fn["body"], 1, [], (), None)
         R.emit("\treturn")
@@ -277,9 +317,10 @@ def defer_paths(fns, f):
 
 
 def parse_facts(text):
-    """output of the kinds harness -> {"D": {line: (order, kind, clo, nargs, dom, cyc)}, "X": {line: (ownerline, clo, nargs)},
-    "S": {fnline: [order...]}, "K": {fnline}, "I": {fnline}}"""
-    facts = {"D": {}, "X": {}, "S": {}, "K": set(), "I": set()}
+    """output of the kinds harness (see harness/c04/main.go) ->
+    {"D": {line: (order, kind, clo, nargs, dom, cyc)}, "X": {line: (ownerline, clo, nargs)}, "L": {line: (order, clo, nargs)},
+     "Z": {line}, "S": {fnline: {order...}}, "K": {fnline}, "I": {fnline}, "N": {fnline}}"""
+    facts = {"D": {}, "X": {}, "L": {}, "Z": set(), "S": {}, "K": set(), "I": set(), "N": set()}
     for ln in text.split("\n"):
         f = ln.split()
         if not f:
@@ -288,48 +329,77 @@ def parse_facts(text):
             facts["D"][int(f[3])] = (int(f[2]), f[4], int(f[5]), int(f[6]), int(f[7]), int(f[8]))
         elif f[0] == "X" and len(f) == 5:
             facts["X"][int(f[2])] = (int(f[1]), int(f[3]), int(f[4]))
+        elif f[0] == "L" and len(f) == 6:
+            facts["L"][int(f[3])] = (int(f[2]), int(f[4]), int(f[5]))
+        elif f[0] == "Z" and len(f) == 3:
+            facts["Z"].add(int(f[2]))
         elif f[0] == "S" and len(f) == 3:
-            facts["S"].setdefault(int(f[1]), []).append(int(f[2]))
-        elif f[0] in ("K", "I") and len(f) == 2:
+            facts["S"].setdefault(int(f[1]), set()).add(int(f[2]))
+        elif f[0] in ("K", "I", "N") and len(f) == 2:
             facts[f[0]].add(int(f[1]))
     return facts
 
 
 def layouts(case, facts):
     """facts from the kinds harness (real cl/blocks + go/ssa), see parse_facts.
-    -> ({fn: [stmt dict in layout order]}, {(fn,)+path: k}, {fn: entryFrame + 2*implicitRunDefers}, problems, kind_mismatches)
+    -> (lay {fn: [stmt dict in layout order]}, index {(fn,)+path: k}, info {fn: {...}}, problems, kind_mismatches)
+    info[fn] = {"entry": frame set up at entry, "implicit": implicit RunDefers, "dropped": [k...], "nodom": in-place frame
+    set-up does not dominate, "inverted": compile order of the defer statements differs from their source order}
 
     A function that still evaluates ssa:deferstack() (K) is the OWNER of range-over-func defers: go/ssa gives every defer
     of it an explicit defer stack, llgo compiles all of them with DeferTo (loop cases of the owner, `x` entries) and the
     only replay statements are the drain points after the range-over-func calls (S; in the layout: loop statements that
-    never execute). Otherwise the layout is the list of defer statements in compile order."""
+    never execute). In an INSTANCE of a generic function the owner lookup fails: the function's own explicit-stack defers
+    become ordinary loop statements (L) and those of its range-over-func bodies are dropped (Z). Otherwise the layout is
+    the list of defer statements in compile order."""
     fns = case["fns"]
-    lay, index, entry, problems, mism = {}, {}, {}, [], []
+    lay, index, info, problems, mism = {}, {}, {}, [], []
     for f in range(len(fns)):
         ds = defer_paths(fns, f)
         fl = case["_fline"].get(f)
-        entry[f] = (1 if fl in facts["K"] else 0) + (2 if fl in facts["I"] else 0)
-        if entry[f] & 1:
-            slots = sorted(facts["S"].get(fl, []))
-            if slots != list(range(len(slots))):
-                problems.append("drain points of fn %d are not 0..n-1: %s" % (f, slots))
-            lay[f] = [{"kind": "loop", "clo": 0, "nargs": 0, "fn": 0} for _ in slots]
+        inf = {"entry": 1 if fl in facts["K"] else 0, "implicit": 1 if fl in facts["I"] else 0, "dropped": [],
+               "nodom": 1 if fl in facts["N"] else 0, "inverted": 0}
+        info[f] = inf
+        if inf["entry"]:
+            slots = [(o, None) for o in facts["S"].get(fl, ())]
+            ext = []
             for (p, s) in ds:
                 line = case["_dline"].get((f,) + p)
-                fact = facts["X"].get(line)
-                if fact is None:
-                    problems.append("defer at line %s of an owner function not reported as explicit-stack defer" % line)
+                if line in facts["X"]:
+                    ownerline, clo, nargs = facts["X"][line]
+                    if ownerline != fl:
+                        problems.append("defer at line %s: owner line %s != %s" % (line, ownerline, fl))
+                    ext.append((p, s, clo, nargs, False))
+                elif line in facts["L"]:
+                    order, clo, nargs = facts["L"][line]
+                    slots.append((order, (p, s, clo, nargs)))
                     continue
-                ownerline, clo, nargs = fact
-                if ownerline != fl:
-                    problems.append("defer at line %s: owner line %s != %s" % (line, ownerline, fl))
-                if nargs != len(s[2]):
+                elif line in facts["Z"]:
+                    ext.append((p, s, 1 if fns[s[1]]["kind"] == "clo" else 0, len(s[2]), True))
+                else:
+                    problems.append("defer at line %s of an owner function not reported by the kinds harness" % line)
+                    continue
+                if ext[-1][3] != len(s[2]):
                     problems.append("nargs mismatch at line %s" % line)
+            slots.sort(key=lambda x: x[0])
+            if [o for o, _ in slots] != list(range(len(slots))):
+                problems.append("replay statements of fn %d are not 0..n-1: %s" % (f, [o for o, _ in slots]))
+            lay[f] = []
+            for o, site in slots:
+                if site is None:
+                    lay[f].append({"kind": "loop", "clo": 0, "nargs": 0, "fn": 0})
+                else:
+                    p, s, clo, nargs = site
+                    index[(f,) + p] = len(lay[f])
+                    lay[f].append({"kind": "loop", "clo": clo, "nargs": nargs, "fn": s[1]})
+            for (p, s, clo, nargs, dropped) in ext:
                 index[(f,) + p] = len(lay[f])
+                if dropped:
+                    inf["dropped"].append(len(lay[f]))
                 lay[f].append({"kind": "x", "clo": clo, "nargs": nargs, "fn": s[1]})
             continue
         rows = []
-        for (p, s) in ds:
+        for si, (p, s) in enumerate(ds):
             line = case["_dline"].get((f,) + p)
             fact = facts["D"].get(line)
             if fact is None:
@@ -344,14 +414,16 @@ def layouts(case, facts):
                 mism.append({"line": line, "kind": kind, "on_cycle": cyc, "why": "loop-kind-iff-block-on-cycle"})
             elif kind == "always" and dom != 1:
                 mism.append({"line": line, "kind": kind, "dominates_all_ends": dom, "why": "always-kind-block-does-not-dominate-every-function-end"})
-            rows.append((order, kind, clo, nargs, s[1], (f,) + p))
+            rows.append((order, kind, clo, nargs, s[1], (f,) + p, si))
         rows.sort()
         if [r[0] for r in rows] != list(range(len(rows))):
             problems.append("defer order of fn %d is not 0..n-1: %s" % (f, [r[0] for r in rows]))
+        if [r[6] for r in rows] != sorted(r[6] for r in rows):
+            inf["inverted"] = 1
         lay[f] = [{"kind": r[1], "clo": r[2], "nargs": r[3], "fn": r[4]} for r in rows]
         for k, r in enumerate(rows):
             index[r[5]] = k
-    return lay, index, entry, problems, mism
+    return lay, index, info, problems, mism
 
 
 def has_up_r(fns, c):
@@ -407,6 +479,11 @@ def cap_r(fns, f):
 # ----------------------------------------------------------------------------------------------- flatten + encode
 class _Stop(Exception):
     pass
+
+
+class _Jump(Exception):
+    def __init__(self, kind, d):
+        self.kind, self.d = kind, d
 
 
 def enc_arg(a, loopvals):
@@ -465,10 +542,19 @@ def flatten(case, f, index):
             elif k == "show":
                 ev.append("w.%d.%s" % (1 if s[1] else 0, s[2]))
             elif k == "if":
-                walk(s[2] if s[1] else s[3], p + (0 if s[1] else 1,), loopvals, in_yield)
+                cv = cond_val(s[1], loopvals)
+                walk(s[2] if cv else s[3], p + (0 if cv else 1,), loopvals, in_yield)
+            elif k in ("break", "continue"):
+                raise _Jump(k, s[1])
             elif k == "for":
                 for i in range(s[1]):
-                    walk(s[2], p + (0,), loopvals + [i], in_yield)
+                    try:
+                        walk(s[2], p + (0,), loopvals + [i], in_yield)
+                    except _Jump as j:
+                        if j.d > 0:
+                            raise _Jump(j.kind, j.d - 1)
+                        if j.kind == "break":
+                            break
             elif k == "rfor":
                 # the body runs inside the call of the iterator (still in the caller's block); the checks of the exit
                 # state that follow the call end the block
@@ -486,13 +572,34 @@ def flatten(case, f, index):
     return ev
 
 
-def encode(case, lay, index, entry=None):
+def history_not_wf(case, lay, index):
+    """Is the executed order of the defer statements of some function NOT well formed w.r.t. its layout (Lemmas/Defer.lean
+    `WF`: an earlier-executed statement comes earlier in the layout unless both lie in one run of loop statements)?
+    Happens when cl/blocks orders a block that leaves a loop before the loop's own blocks."""
+    fns = case["fns"]
+    for f in range(len(fns)):
+        ks = [int(e.split(".")[1]) for e in flatten(case, f, index) if e.startswith("d.")]
+        kinds = [s["kind"] for s in lay[f]]
+        if "x" in kinds:
+            continue
+        for a in range(len(ks)):
+            for b in range(a + 1, len(ks)):
+                k1, k2 = ks[a], ks[b]
+                if k1 < k2:
+                    continue
+                if not all(kinds[j] == "loop" for j in range(k2, k1 + 1)):
+                    return True
+    return False
+
+
+def encode(case, lay, index, info=None):
     fns = case["fns"]
     out = []
     for f in range(len(fns)):
         ss = ",".join("%s.%d.%d.%d" % (s["kind"][0], s["clo"], s["nargs"], s["fn"]) for s in lay[f])
-        e = (entry or {}).get(f, 0)
-        out.append("%d%d%d;%s;%s" % (1 if cap_r(fns, f) else 0, e & 1, (e >> 1) & 1, ss, ",".join(flatten(case, f, index))))
+        inf = (info or {}).get(f, {"entry": 0, "implicit": 0, "dropped": []})
+        hdr = "%d%d%d" % (1 if cap_r(fns, f) else 0, inf["entry"], inf["implicit"]) + "".join(".%d" % k for k in inf["dropped"])
+        out.append("%s;%s;%s" % (hdr, ss, ",".join(flatten(case, f, index))))
     return "|".join(out)
 
 
@@ -558,6 +665,8 @@ def gen_case(rng, name=""):
 
     def gen_plain(depth, called):
         f = new_fn("plain", rng.choice([0, 0, 1]) if called else 0)
+        if depth > 0 and rng.random() < 0.12:
+            fns[f]["generic"] = True
         ndef = rng.choice([0, 1, 1, 2, 2, 3, 3, 4, 5, 6]) if depth == 0 else rng.choice([0, 0, 1, 1, 2, 3])
         left = [ndef]
 
@@ -595,7 +704,19 @@ def gen_case(rng, name=""):
                 elif left[0] > 0 and c < 0.62 and not in_loop:
                     out.append(["if", rng.randint(0, 1) if rng.random() < 0.8 else 1, block(rng.randint(1, 2), False, False), block(rng.randint(0, 1), False, False) if rng.random() < 0.3 else []])
                 elif left[0] > 0 and c < 0.74 and not in_loop:
-                    out.append(["for", rng.randint(0, 3), block(rng.randint(1, 2), True, False)])
+                    lb = block(rng.randint(1, 2), True, False)
+                    r2 = rng.random()
+                    if r2 < 0.25 and left[0] > 0:
+                        # a defer in a block that leaves the loop, before the loop's other statements
+                        left[0] -= 1
+                        d, a = gen_deferred(f, depth + 1, True)
+                        lb = [["if", ["ieq", rng.randint(0, 2)], [["defer", d, a], [rng.choice(["break", "continue"]), 0]], []]] + lb
+                    elif r2 < 0.4 and left[0] > 0:
+                        # a defer in the else branch inside the loop
+                        left[0] -= 1
+                        d, a = gen_deferred(f, depth + 1, True)
+                        lb = [["if", ["ieq", 1], [["mark", 33]], [["defer", d, a]]]] + lb
+                    out.append(["for", rng.randint(0, 3), lb])
                 elif left[0] > 0 and c < 0.82 and not in_loop:
                     # range-over-func body: its defers go to this function's defer stack
                     rb = []
@@ -793,6 +914,138 @@ def enum_panic_branch():
                     inner = {"panic": ["panic", ["lit", 5]], "fault": ["fault", "map"], "ret": ["ret"]}[br]
                     body = [["set", 0, "x", ["lit", 3]], ["defer", c1, a1], ["if", taken, [inner], []], ["mark", 2], ["defer", c2, a2], ["mark", 3]]
                     out.append({"name": "pb-%s-%s-%s-%d" % (d1, d2, br, taken), "fns": _root3(body, extra)})
+    return out
+
+
+def enum_loop_exit():
+    """Defers in blocks that LEAVE a loop (break / labelled break / labelled continue), next to defers that stay in the loop,
+    at every nesting level: cl/blocks orders a loop-exit block before the loop's own blocks, so the compile order of the
+    defer statements differs from their source order."""
+    out = []
+    for jump in (["break", 0], ["break", 1], ["continue", 1], ["continue", 0]):
+        for bd in ("none", "p0", "p1"):
+            for outer_defer in (0, 1):
+                for hit in (1, 5):        # 5: the condition never holds
+                    for post in (0, 1):
+                        extra = []
+
+                        def callee(n):
+                            extra.append({"kind": "plain", "nparams": n, "body": []})
+                            return 2 + len(extra)
+                        exit_blk = []
+                        if bd == "p0":
+                            exit_blk.append(["defer", callee(0), []])
+                        elif bd == "p1":
+                            exit_blk.append(["defer", callee(1), [["i"]]])
+                        exit_blk.append(list(jump))
+                        if jump[1] == 1:
+                            inner = [["if", ["ieq", hit], [["if", ["oeq", 1], exit_blk, []]], []],
+                                     ["if", ["ieq", 1], [["defer", callee(1), [["i"]]]], []]]
+                            loop = [["for", 3, inner]]
+                            if outer_defer:
+                                loop.append(["defer", callee(1), [["i"]]])
+                            body = [["for", 3, loop]]
+                        else:
+                            inner = [["if", ["ieq", hit], exit_blk, []], ["defer", callee(1), [["i"]]]]
+                            body = [["for", 3, inner]]
+                            if outer_defer:
+                                body = [["defer", callee(0), []]] + body
+                        if post:
+                            body.append(["defer", callee(1), [["lit", 77]]])
+                        out.append({"name": "lx-%s%d-%s-%d-%d-%d" % (jump[0], jump[1], bd, outer_defer, hit, post), "fns": _root3(body, extra)})
+    return out
+
+
+def enum_else_loop():
+    """A loop whose else-branch (or then-branch) defers, followed by post-loop defers: when the post-loop block is the
+    function's only end its defer is `always` and may be compiled BEFORE the off-cycle loop block."""
+    out = []
+    for branch in ("else", "then"):
+        for post in ("none", "p0", "p1", "clo"):
+            for other in ("mark", "defer"):
+                for pre in (0, 1):
+                    extra = []
+
+                    def callee(kind, n, b=None):
+                        extra.append({"kind": kind, "nparams": n, "body": b or []})
+                        return 2 + len(extra)
+                    d = [["defer", callee("plain", 1), [["i"]]]]
+                    o = [["mark", 4]] if other == "mark" else [["defer", callee("plain", 1), [["lit", 50]]]]
+                    body = []
+                    if pre:
+                        body.append(["defer", callee("plain", 0), []])
+                    body.append(["for", 4, [["if", ["ieq", 1], o, d] if branch == "else" else ["if", ["ieq", 1], d, o]]])
+                    if post == "p0":
+                        body.append(["defer", callee("plain", 0), []])
+                    elif post == "p1":
+                        body.append(["defer", callee("plain", 1), [["lit", 0]]])
+                    elif post == "clo":
+                        body.append(["defer", callee("clo", 0, [["show", 1, "x"]]), []])
+                    out.append({"name": "el-%s-%s-%s-%d" % (branch, post, other, pre), "fns": _root3(body, extra)})
+    return out
+
+
+def enum_generic(max_items=2):
+    """Instances of GENERIC functions containing every defer shape (own, conditional, loop, range-over-func with one and two
+    sites), deferred callees generic too; with and without a final fault."""
+    import itertools
+    items = ["own0", "own1", "cond", "loop", "rf1", "rf2"]
+    out = []
+    for n in range(1, max_items + 1):
+        for combo in itertools.product(items, repeat=n):
+            for fault in (0, 1):
+                extra, body = [], []
+
+                def callee(nparams):
+                    extra.append({"kind": "plain", "nparams": nparams, "body": [], "generic": len(extra) % 2 == 0})
+                    return 2 + len(extra)
+                for j, it in enumerate(combo):
+                    if it == "own0":
+                        body.append(["defer", callee(0), []])
+                    elif it == "own1":
+                        body.append(["defer", callee(1), [["lit", 40 + j]]])
+                    elif it == "cond":
+                        body.append(["if", 1, [["defer", callee(1), [["lit", 60 + j]]]], []])
+                    elif it == "loop":
+                        body.append(["for", 2, [["defer", callee(1), [["i"]]]]])
+                    elif it == "rf1":
+                        body.append(["rfor", 2, [["defer", callee(1), [["i"]]]]])
+                    elif it == "rf2":
+                        body.append(["rfor", 2, [["defer", callee(1), [["i"]]], ["mark", 70 + j], ["defer", callee(2), [["i"], ["lit", 5]]]]])
+                if fault:
+                    body.append(["fault", "idx"])
+                fns = _root3(body, extra)
+                fns[2]["generic"] = True
+                out.append({"name": "gn-%s-%d" % (".".join(combo), fault), "fns": fns})
+    return out
+
+
+def enum_cond64(sizes=(62, 63, 64), patterns=("all", "last", "first", "alt"), faults=(0, 1)):
+    """The limit of the conditional-defer bit set: functions with 62, 63 and 64 (the maximum) conditional defers
+    `if c_i { defer F_i(..) }`, every one with its own id (argument = i; every 7th without arguments, every 11th a closure),
+    with all / only the last / only the first / every other condition true, with and without a final fault."""
+    out = []
+    for n in sizes:
+        for pat in patterns:
+            for fault in faults:
+                extra, body = [], []
+                extra.append({"kind": "plain", "nparams": 1, "body": []})      # shared callee with the id as argument
+                shared = 3
+                for i in range(n):
+                    on = {"all": 1, "last": int(i == n - 1), "first": int(i == 0), "alt": i % 2}[pat]
+                    if i % 11 == 5:
+                        extra.append({"kind": "clo", "nparams": 0, "body": [["show", 1, "x"]]})
+                        d = ["defer", 2 + len(extra), []]
+                    elif i % 7 == 3:
+                        extra.append({"kind": "plain", "nparams": 0, "body": []})
+                        d = ["defer", 2 + len(extra), []]
+                    else:
+                        d = ["defer", shared, [["lit", 100 + i]]]
+                    body.append(["if", on, [d], []])
+                body.append(["set", 0, "x", ["lit", 9]])
+                if fault:
+                    body.append(["fault", "div"])
+                out.append({"name": "c64-%d-%s-%d" % (n, pat, fault), "fns": _root3(body, extra)})
     return out
 
 
